@@ -294,4 +294,72 @@ def inline_reader_helpers(model: Model, fi: FuncInfo, normalise) -> List[ast.stm
     inl = Inliner(model, normalise)
     body = copy.deepcopy(list(fi.node.body))
     out = inl.block(body, fi.module, [fi.qualname, fi.qualname])
-    return scalar_replace(model, fi.module, out)
+    return resolve_discriminators(scalar_replace(model, fi.module, out))
+
+
+def resolve_discriminators(body: List[ast.stmt]) -> List[ast.stmt]:
+    """Inside a loop body:   X = None ; if <T>: X = <E>     with X not bound again in that body
+    makes X a discriminator: `X == c` means `<T> and <E> == c`, `X is None` means `not <T>`.  The later tests on X are rewritten
+    that way and the two statements go, so a dispatch on a derived "choice" variable reads like a dispatch on the tag itself."""
+    def rewrite_block(stmts: List[ast.stmt]) -> List[ast.stmt]:
+        out = list(stmts)
+        i = 0
+        while i + 1 < len(out):
+            a, b = out[i], out[i + 1]
+            name = None
+            if isinstance(a, (ast.Assign, ast.AnnAssign)) and a.value is not None and isinstance(a.value, ast.Constant) and a.value.value is None:
+                tg = a.targets if isinstance(a, ast.Assign) else [a.target]
+                if len(tg) == 1 and isinstance(tg[0], ast.Name):
+                    name = tg[0].id
+            if name and isinstance(b, ast.If) and not b.orelse and len(b.body) == 1 and isinstance(b.body[0], ast.Assign) and len(b.body[0].targets) == 1 and \
+                    isinstance(b.body[0].targets[0], ast.Name) and b.body[0].targets[0].id == name:
+                T, E = b.test, b.body[0].value
+                rest = out[i + 2:]
+                pure = not any(isinstance(x, (ast.Call, ast.NamedExpr, ast.Await)) for x in ast.walk(T)) and not any(isinstance(x, (ast.Call, ast.NamedExpr, ast.Await)) for x in ast.walk(E))
+                stored = any(isinstance(x, ast.Name) and x.id == name and isinstance(x.ctx, (ast.Store, ast.Del)) for s_ in rest for x in ast.walk(s_))
+                used_names = {x.id for x in ast.walk(T) if isinstance(x, ast.Name)} | {x.id for x in ast.walk(E) if isinstance(x, ast.Name)}
+                roots_stored = any(isinstance(x, ast.Name) and x.id in used_names and isinstance(x.ctx, (ast.Store, ast.Del)) for s_ in rest for x in ast.walk(s_))
+                # every use of X must be a comparison the rewrite understands
+                loads = [x for s_ in rest for x in ast.walk(s_) if isinstance(x, ast.Name) and x.id == name and isinstance(x.ctx, ast.Load)]
+                cmps = [x for s_ in rest for x in ast.walk(s_) if isinstance(x, ast.Compare) and len(x.ops) == 1 and isinstance(x.left, ast.Name) and x.left.id == name
+                        and isinstance(x.ops[0], (ast.Eq, ast.NotEq, ast.Is, ast.IsNot, ast.In, ast.NotIn))]
+                if pure and not stored and not roots_stored and loads and len(loads) == len(cmps):
+                    class R(ast.NodeTransformer):
+                        def visit_Compare(self, n: ast.Compare):
+                            if not any(n is c for c in cmps):
+                                return self.generic_visit(n)
+                            op, rhs = n.ops[0], n.comparators[0]
+                            t_ = copy.deepcopy(T)
+                            if isinstance(rhs, ast.Constant) and rhs.value is None and isinstance(op, (ast.Is, ast.Eq)):
+                                new = ast.UnaryOp(op=ast.Not(), operand=t_)
+                            elif isinstance(rhs, ast.Constant) and rhs.value is None and isinstance(op, (ast.IsNot, ast.NotEq)):
+                                new = t_
+                            elif isinstance(op, (ast.Eq, ast.In)):
+                                new = ast.BoolOp(op=ast.And(), values=[t_, ast.Compare(left=copy.deepcopy(E), ops=[op], comparators=[rhs])])
+                            elif isinstance(op, (ast.NotEq, ast.NotIn)):
+                                new = ast.BoolOp(op=ast.Or(), values=[ast.UnaryOp(op=ast.Not(), operand=t_), ast.Compare(left=copy.deepcopy(E), ops=[op], comparators=[rhs])])
+                            else:
+                                return n
+                            ast.copy_location(new, n)
+                            ast.fix_missing_locations(new)
+                            return new
+                    rest = [R().visit(s_) for s_ in rest]
+                    out = out[:i] + rest
+                    continue
+            i += 1
+        return out
+
+    class L(ast.NodeTransformer):
+        def visit_While(self, n: ast.While):
+            n = self.generic_visit(n)
+            n.body = rewrite_block(n.body)
+            return n
+
+        def visit_For(self, n: ast.For):
+            n = self.generic_visit(n)
+            n.body = rewrite_block(n.body)
+            return n
+    mod = ast.Module(body=body, type_ignores=[])
+    mod = L().visit(mod)
+    ast.fix_missing_locations(mod)
+    return mod.body
